@@ -141,9 +141,10 @@ func (s *Server) Serve(ctx context.Context, rw RpcReadWriter) error {
 }
 
 type unaryRpcArgs struct {
-	info *serviceInfo
-	md   *grpc.MethodDesc
-	rpc  *goatorepo.Rpc
+	info    *serviceInfo
+	md      *grpc.MethodDesc
+	rpc     *goatorepo.Rpc
+	arrived time.Time
 }
 
 type streamHandler struct {
@@ -224,7 +225,7 @@ func (h *handler) serve(clientCtx context.Context) error {
 			for {
 				select {
 				case args := <-h.unaryRpcChan:
-					resp := h.processUnaryRpc(clientCtx, args.info, args.md, args.rpc)
+					resp := h.processUnaryRpc(clientCtx, args.info, args.md, args.rpc, args.arrived)
 					select {
 					case h.writeChan <- resp:
 					case <-h.ctx.Done():
@@ -269,7 +270,7 @@ func (h *handler) serve(clientCtx context.Context) error {
 		}
 		if md, ok := si.methods[method]; ok {
 			select {
-			case h.unaryRpcChan <- unaryRpcArgs{si, md, rpc}:
+			case h.unaryRpcChan <- unaryRpcArgs{si, md, rpc, time.Now()}:
 			case <-h.ctx.Done():
 				return h.ctx.Err()
 			}
@@ -309,8 +310,9 @@ func (h *handler) processUnaryRpc(
 	info *serviceInfo,
 	md *grpc.MethodDesc,
 	rpc *goatorepo.Rpc,
+	arrived time.Time,
 ) *goatorepo.Rpc {
-	ctx, cancel, err := contextFromHeaders(clientCtx, rpc.GetHeader())
+	ctx, cancel, err := contextFromHeaders(clientCtx, rpc.GetHeader(), arrived)
 	defer cancel()
 	if err != nil {
 		// Whatever a peer sends must not take the server down: answer with an
@@ -497,7 +499,7 @@ func (h *handler) processStreamingRpc(
 		return nil
 	}
 
-	ctx, cancel, err := contextFromHeaders(clientCtx, rpc.GetHeader())
+	ctx, cancel, err := contextFromHeaders(clientCtx, rpc.GetHeader(), time.Now())
 	if err != nil {
 		log.Info().Msgf("invalid headers: calling RST stream %d", rpc.Id)
 		return h.resetStream(rpc)
@@ -647,10 +649,12 @@ func (h *handler) resetStream(rpc *goatorepo.Rpc) error {
 
 // contextFromHeaders returns a new incoming context with metadata populated
 // by the given request headers. If the given headers contain a GRPC-Timeout, it
-// is used to set the deadline on the returned context.
+// is used to set the deadline on the returned context, counted from the time
+// the request arrived (a unary request may have waited for a free worker).
 func contextFromHeaders(
 	parent context.Context,
 	h *goatorepo.RequestHeader,
+	arrived time.Time,
 ) (context.Context, context.CancelFunc, error) {
 	md, err := internal.ToMetadata(h.Headers)
 	if err != nil {
@@ -662,7 +666,7 @@ func contextFromHeaders(
 	for _, hdr := range h.Headers {
 		if strings.ToLower(hdr.GetKey()) == "grpc-timeout" {
 			if timeout, ok := parseGrpcTimeout(hdr.Value); ok {
-				ctx, cancel := context.WithTimeout(ctx, timeout)
+				ctx, cancel := context.WithDeadline(ctx, arrived.Add(timeout))
 				return ctx, cancel, nil
 			}
 		}
